@@ -116,4 +116,29 @@ contract Scraper.WithRawWriter
   ensures[C12] len(s.writer) == old(len(s.writer)) + len(w)
   ensures[C12] forall i in 0..len(s.writer) :: (i < old(len(s.writer)) ==> s.writer[i] == old(s.writer[i])) && (i >= old(len(s.writer)) ==> s.writer[i] == w[i - old(len(s.writer))])
   modifies Scraper.writer at {s}, elems(Scraper.writer) at {}
+
+// ---------- the job table the proxy and the explorer look jobs up in ----------
+// every job of the table has its configuration and an HTTP client (what the proxy's getJob / the explorer's GetJob rely on)
+pred wfJobs(s) = s.jobs != nil && (forall jn, inf in s.jobs :: inf != nil && inf.Config != nil && inf.Cli != nil)
+
+contract github.com/prometheus/common/config.NewClientFromConfig
+  ensures result1 == nil ==> result0 != nil
+  modifies net/http.Client.* at {}
+
+contract newJobInfo
+  ensures result1 == nil ==> (result0 != nil && fresh(result0) && result0.Config != nil && result0.Cli != nil && result0.Config.JobName == cfg.JobName)
+  modifies JobInfo.* at {}, github.com/prometheus/prometheus/config.ScrapeConfig.* at {}, net/url.URL.* at {}, net/http.Client.* at {}
+
+contract Manager.ApplyConfig
+  requires s != nil && s.lg != nil && cfg != nil && cfg.Config != nil && (forall j in cfg.Config.ScrapeConfigs :: j != nil)
+  ensures[C12,C13,C20] @every_job_of_the_table_has_config_and_client wfJobs(s)
+  ensures forall jn in s.jobs :: (exists k in 0..len(cfg.Config.ScrapeConfigs) :: cfg.Config.ScrapeConfigs[k].JobName == jn)
+  modifies Manager.jobs at {s}, mapof(Manager.jobs) at {}, JobInfo.* at {}, github.com/prometheus/prometheus/config.ScrapeConfig.* at {}, net/url.URL.* at {}, net/http.Client.* at {}
+  loop 1 invariant ret != nil && fresh(ret) && (forall jn, inf in ret :: inf != nil && inf.Config != nil && inf.Cli != nil)
+  loop 1 invariant forall jn in ret :: (exists k in 0..idx1 :: cfg0.Config.ScrapeConfigs[k].JobName == jn)
+
+contract Manager.GetJob
+  requires s != nil && wfJobs(s)
+  ensures[C12,C13,C20] @a_found_job_has_config_and_client result != nil ==> (result.Config != nil && result.Cli != nil)
+  modifies nothing
 @*/
